@@ -5,6 +5,7 @@ import DimodProofs.CppWF
 import DimodProofs.CppMore
 import DimodProofs.NoUB2
 import DimodProofs.CqmInv
+import DimodProofs.NoUBExpr
 
 /-! # C20 — no call sequence corrupts the native data structures
 
@@ -134,9 +135,40 @@ theorem no_ub_more (m : CppM) (h : m.WF) :
    fun v mult c hv => CppM.substituteVariable?_eq m h v mult c hv, CppM.substituteAllLookups_ok m h,
    fun k d hk => CppM.addDense?_eq m h k d hk, fun rows cols vals hl hq => CppM.addCoo?_eq m h rows cols vals hl hq⟩
 
-/-- gap of `no_ub_within_preconditions` / `no_ub_more`: the Expression / Constraint / CQM layer has no
-    checked-indexing model (its invariant `ExprWF` says the stored indices are in range, `expression_wf_preserved_partial`;
-    the accesses themselves are covered by the sanitizer runs only); `remove_variables` is checked for its lookups, not
+/-- **the Expression layer performs no out-of-range access** (checked-indexing model `DimodModel/CheckedExpr.lean`: every
+    `operator[]` on `variables_`, `linear_biases_`, `(*adj_ptr_)` with the local index handed back by `enforce_variable` /
+    `indices_`, and with every neighbour index stored in the structure, is a lookup that can fail).  Under `ExprWF`, for
+    **any** global index (the Expression methods have no precondition on it: an unknown variable is added or ignored):
+    add / set linear, `add_quadratic` (self-loop branches per vartype included), `remove_interaction`, `remove_variable`
+    (`variables_.erase(begin + i)` and the base `remove_variable(i)`), `substitute_variable` (`linear_biases_[v]`,
+    `(*adj_ptr_)[v]`, per term `linear_biases_[term.v]`, `(*adj_ptr_)[term.v]`), and the readers `linear`, `quadratic`
+    all complete without a failing lookup and return what the unchecked model returns. -/
+theorem expression_no_ub (e : Expr) (h : CqmP.ExprWF e) :
+    (∀ g b, e.addLinear? g b = some (e.addLinear g b)) ∧ (∀ g b, e.setLinear? g b = some (e.setLinear g b)) ∧
+    (∀ vt gu gv b, e.addQuadratic? vt gu gv b = some (e.addQuadratic vt gu gv b)) ∧
+    (∀ gu gv, e.removeInteraction? gu gv = some (e.removeInteraction gu gv)) ∧
+    (∀ g, e.removeVar? g = some (e.removeVar g)) ∧
+    (∀ g m c, e.substitute? g m c = some (e.substitute g m c)) ∧
+    (∀ g, e.linear? g = some (e.linear g)) ∧ (∀ g k, e.quadratic? g k = some (e.quadratic g k)) :=
+  ⟨fun g b => CqmP.Expr.addLinear?_eq h g b, fun g b => CqmP.Expr.setLinear?_eq h g b,
+   fun vt gu gv b => CqmP.Expr.addQuadratic?_eq h vt gu gv b, fun gu gv => CqmP.Expr.removeInteraction?_eq h gu gv,
+   fun g => CqmP.Expr.removeVar?_eq h g, fun g m c => CqmP.Expr.substitute?_eq h g m c,
+   fun g => CqmP.Expr.linear?_eq h g, fun g k => CqmP.Expr.quadratic?_eq h g k⟩
+
+/-- … and for **every call sequence** on an expression, starting from the empty one: the run with checked lookups
+    never fails, equals the unchecked run, and ends in a well-formed expression (induction over the sequence) -/
+theorem expression_histories_no_ub (vt : List VT4) (ops : List EOp) :
+    Expr.runE? vt (some {}) ops = some (({} : Expr).runE vt ops) ∧ CqmP.ExprWF (({} : Expr).runE vt ops) :=
+  ⟨CqmP.runE?_eq vt ops CqmP.exprWF_empty, CqmP.runE_wf vt ops CqmP.exprWF_empty⟩
+
+/-- non-vacuity: a checked run that adds, links, substitutes and removes variables of an expression -/
+example : (Expr.runE? [.integer, .binary, .spin] (some {})
+    [.addLinear 2 (1/2), .addQuadratic 0 0 (3/2), .addQuadratic 0 2 1, .substitute 0 2 (-1), .removeVar 2, .removeInteraction 0 0]).isSome = true := by
+  decide +kernel
+
+/-- gap of `no_ub_within_preconditions` / `no_ub_more` / `expression_no_ub`: the Constraint / CQM level (the vector of
+    constraints, `fix_variable` / `remove_variable` of a whole CQM walking every expression, the copy / move / swap paths)
+    has no checked-indexing model (covered by the sanitizer runs only); `remove_variables` is checked for its lookups, not
     shown equal to the model's one-by-one removal (that equality is observed by the correspondence run). -/
 theorem no_ub_partial (m : CppM) (h : m.WF) (vs : List Nat) (hb : ∀ v ∈ vs, v < m.q.lin.length) :
     (m.reindexLookups? vs).isSome := CppM.reindexLookups_ok m h vs hb
